@@ -295,6 +295,7 @@ def run_c04(ctx):
     regrown = 0
     while nops < (20 if deep else 12):
         missing = [i for i in range(1, m.B + 1) if i not in grown]
+        t.mark()
         # 0 = stop generating
         if not t.flag(5, 6, "more-grows") or (not missing and not t.flag(1, 3, "regrow")):
             break
@@ -476,7 +477,10 @@ def run_c08(ctx):
     query_progress(m, model, "after sow")
     nops = 0
     kinds_done = set()
-    while nops < (18 if deep else 12) and t.flag(7, 8, "more-ops"):
+    while nops < (18 if deep else 12):
+        t.mark()
+        if not t.flag(7, 8, "more-ops"):
+            break
         nops += 1
         op = t.weighted([("grow", 6), ("poison", 2), ("resow", 2), ("delete", 2),
                          ("corrupt", 2), ("check_bad", 1), ("reload", 1), ("unpoison", 1)],
